@@ -444,7 +444,10 @@ def run_case(case) -> CaseResult:
     tag = case.get('t')
     if tag == 'pure':
         run_pure_case(case, res)
-    # other parts (e.g. 'conc': concurrent downloads) plug in here; unknown tags are ignored
+    elif tag == 'conc':
+        from checks import c09_conc
+        c09_conc.run_conc_case(case, res)
+    # unknown tags are ignored
     return res
 
 
@@ -458,6 +461,8 @@ def _shard_pure(ctx):
 
 def run_shard(ctx):
     _shard_pure(ctx)
+    from checks import c09_conc
+    c09_conc.shard_conc(ctx)
 
 
 MANIFEST_ENTRY = {
@@ -469,7 +474,10 @@ MANIFEST_ENTRY = {
                   'SharesManager.calculate_download_path: containment (realpath under the download directory), regular '
                   'file name, freshness against the real directory contents, and exceptions for paths that name a '
                   'file. Sampled, no proof; the explored set and label histogram are in the evidence.',
-    'level_note': 'Pure part only checks the path chosen by the naming layer (what TransferManager._prepare_download_path '
+    'level_note': 'Second part (checks/c09_conc.py): 2..3 downloads of equally named files from different scripted uploaders '
+                  'through the real TransferManager with generated start offsets and executor delays; at no sampled instant '
+                  'two active downloads share a local path, nothing is created outside the download directory. '
+                  'Pure part only checks the path chosen by the naming layer (what TransferManager._prepare_download_path '
                   'joins and opens); regular-name and freshness predicates are asserted only for the chains whose '
                   'strategies promise them (see assumptions). POSIX file system; no symlinks, no NUL in paths.',
 }
